@@ -39,8 +39,8 @@ def run(ctx):
             # another slot ("localhost", "library") matter by their spelling, not by their class
             byclass.setdefault(("hp1", s["h"], s["pcs"][0], len(s["pcs"])), []).append(s)
         picked = [rng.choice(v) for v in byclass.values()]
-        rest = rng.sample(big, 4000)
-        chosen = rng.sample(small, min(len(small), 3000)) + picked + rest
+        rest = rng.sample(big, 2000)
+        chosen = rng.sample(small, min(len(small), 2000)) + picked + rest
         mutbases = 120
     rng.shuffle(chosen)
     nchunks = 8 if ctx.thorough else 4
